@@ -29,7 +29,7 @@ BOUNDS = (
     "reads of labels, nlabels, max_label, areas, slices, bbox, segments, polygons, missing_labels, is_consecutive, "
     "data_ma, background_area, deblended_labels, deblended_labels_map, deblended_labels_inverse_map, copy().  "
     "Histories: ALL histories of length 1 and 2 on a fixed set of initial objects (4 quick / 14 thorough), and seeded "
-    "random histories of length 3 on random arrays of the stated family until the time budget (quick ~10 s, thorough "
+    "random histories of length 3 on random arrays of the stated family until the time budget (quick ~8 s, thorough "
     "~170 s of sampling) is used.  All comparisons exact (integers, slices, masks); polygon coverage by area "
     "(abs tol 1e-9) and pixel-centre containment."
 )
@@ -749,7 +749,7 @@ def run(ctx):
     ctx.note(f'exhaustive length<=2 histories: {stats["nodes"]} nodes on {len(specs)} initial objects, '
              f'{time.time() - t0:.1f} s')
     # sampled histories of length 3 on the broad array family
-    budget = (170.0 if ctx.thorough else 10.0)
+    budget = (170.0 if ctx.thorough else 8.0)
     t1 = time.time()
     nh = 0
     while time.time() - t1 < budget:
